@@ -27,7 +27,7 @@ from ..common import Check, workdir
 from ..tlc import run_tlc, run_trace_tlc
 
 LEVEL = "model_checking"
-FAULTS = ("eof", "reset", "garbage-eof", "write-error", "sorry")
+FAULTS = ("eof", "reset", "timeout", "garbage-eof", "write-error", "sorry")
 
 
 def model(chk: Check, tier: str, prefix="C13"):
@@ -72,6 +72,9 @@ def fault_injector(kind: str, fault: str, step: int | None, at: float | None, pl
                 s.eof(c)
             elif fault == "reset":
                 s.reset(c)
+            elif fault == "timeout":          # keep-alive expiry: the read fails with TimeoutError (an OSError)
+                s.ev("Reset", conn=c)
+                s.readers[c].set_exception(TimeoutError(110, "Connection timed out"))
             elif fault == "garbage-eof":
                 s.feed(c, b"\x01garbage\xff\xaa\x55 not a packet\r\n\x00\x00")
                 s.eof(c)
@@ -149,7 +152,7 @@ def sessions(tier: str, seed: int, kinds=vloop.CLIENTS):
                     log, raw2 = cf.run(kind, plan, fault_injector(kind, fault, k, None, plan))
                     logs.append(log)
                     meta.append((kind, fault, refuse, "ok", f"step{k - s_conn:+d}"))
-                    if fault in ("eof", "reset"):
+                    if fault in ("eof", "reset", "timeout"):
                         CONF.append(("ok", cf.conformance_log(raw2), f"{kind} {fault} step{k - s_conn:+d} refuse={refuse}"))
                 if fault == "sorry":
                     continue            # the banner is sent instead of traffic, not inside a packet
@@ -264,8 +267,8 @@ def fuzz_sessions(n: int, seed: int, with_close: bool, kinds=vloop.CLIENTS):
         times = sorted(round(rng.uniform(0.05, 18.0), 3) for _ in range(k))
         acts = []
         for t in times:
-            a = rng.choice(["eof", "reset", "garbage-eof", "write-error", "stalled-send", "send", "connect", "feed", "feed-half"]
-                           if kind != "actisense" else ["eof", "reset", "garbage-eof", "connect", "feed", "feed-half", "send"])
+            a = rng.choice(["eof", "reset", "timeout", "garbage-eof", "write-error", "stalled-send", "send", "connect", "feed", "feed-half"]
+                           if kind != "actisense" else ["eof", "reset", "timeout", "garbage-eof", "connect", "feed", "feed-half", "send"])
             acts.append((t, a, rng.choice([0.05, 0.2, 0.4]), rng.random() < 0.6))
         t_close = round(rng.uniform(0.0, 19.0), 3) if with_close else None
 
@@ -273,7 +276,7 @@ def fuzz_sessions(n: int, seed: int, with_close: bool, kinds=vloop.CLIENTS):
             plan.sess = s
             pk = cf.valid_packet(kind, 2)
             for t, a, d, fails in acts:
-                if a in ("eof", "reset", "garbage-eof", "write-error"):
+                if a in ("eof", "reset", "timeout", "garbage-eof", "write-error"):
                     fault_injector(kind, a, None, t, plan)(s, state)
                 elif a == "stalled-send":
                     def go(t=t, d=d, fails=fails):
